@@ -1,5 +1,5 @@
 (* C29 — Header API behaves as a case-insensitive ordered multimap.  Statements only; proofs live in
-   Proof/HeaderMapProof.v, Proof/HeaderSpecProof.v and Proof/HeaderCaseProof.v.
+   Proof/HeaderMapProof.v, Proof/HeaderSpecProof.v, Proof/HeaderCaseProof.v and Proof/HeaderAllProof.v.
 
    Model: Model/HeaderWrite.v (setters, setSpecialHeader, peek) + Model/HeaderMap.v (del, peekAll, All, CopyTo).
    Spec:  Spec/HeaderSpec.v (ordered multimap keyed by canonical name).
@@ -13,7 +13,7 @@
    excludes).  Two further defects found while building this property were repaired in /repo (PeekAll of an unset
    special name, Connection: close next to an older value); the model describes the repaired code. *)
 From FH Require Import Model.Base Gen.GenC05 Model.ByteClassModel Model.Cookie Model.HeaderWrite Model.HeaderMap
-  Spec.HeaderSpec Proof.HeaderMapProof Proof.HeaderSpecProof Proof.HeaderCaseProof.
+  Spec.HeaderSpec Proof.HeaderMapProof Proof.HeaderSpecProof Proof.HeaderCaseProof Proof.HeaderAllProof.
 Open Scope N_scope.
 
 (* with normalisation enabled every canonicalised key passes the case-fold guard *)
@@ -48,19 +48,21 @@ Theorem C29_refines_spec_request : forall nonorm nodefct evs k, ops_guard qspeci
 Proof. exact req_refines_spec_g. Qed.
 Print Assumptions C29_refines_spec_request.
 
-(* All() / VisitAll (hence PeekKeys, Len): the values yielded under an ordinary name, in order.
-   _partial: for the specially handled names All() is checked by the harness only; ContentLength() and
-   ConnectionClose() are checked by the harness only. *)
-Theorem C29_all_ordinary_response_partial : forall nonorm nodefct ops c, ops_guard rspecials nonorm ops -> ordinary_r c = true ->
+(* All() / VisitAll, hence PeekKeys and Len: under EVERY name the values yielded, in order, are those of the reference
+   multimap (every Set-Cookie value is its own field; the request cookies are one Cookie field).
+   Checked by the harness only: ContentLength() (int) and ConnectionClose(). *)
+Theorem C29_all_response : forall nonorm nodefct ops c, ops_guard rspecials nonorm ops ->
   let r := fold_left rstep29 ops (rinit nonorm nodefct) in
-  vals_of (RAll r) c = spec_all_vals HResp nodefct (srun HResp nonorm (map sop_of ops)) c.
-Proof. exact resp_all_ordinary_g. Qed.
-Print Assumptions C29_all_ordinary_response_partial.
-Theorem C29_all_ordinary_request_partial : forall nonorm nodefct evs c, ops_guard qspecials nonorm (qev_ops evs) -> ordinary_q c = true ->
+  vals_of (RAll r) c = spec_all_vals HResp nodefct (srun HResp nonorm (map sop_of ops)) c
+  /\ RPeekKeys r = map fst (RAll r) /\ RLen r = Z.of_nat (length (RAll r)).
+Proof. exact resp_all_g. Qed.
+Print Assumptions C29_all_response.
+Theorem C29_all_request : forall nonorm nodefct evs c, ops_guard qspecials nonorm (qev_ops evs) ->
   let q := fold_left qevstep evs (qinit nonorm nodefct) in
-  vals_of (snd (QAll q)) c = spec_all_vals HReq nodefct (srun HReq nonorm (map sop_of (qev_ops evs))) c.
-Proof. exact req_all_ordinary_g. Qed.
-Print Assumptions C29_all_ordinary_request_partial.
+  vals_of (snd (QAll q)) c = spec_all_vals HReq nodefct (srun HReq nonorm (map sop_of (qev_ops evs))) c
+  /\ snd (QPeekKeys q) = map fst (snd (QAll q)) /\ snd (QLen q) = Z.of_nat (length (snd (QAll q))).
+Proof. exact req_all_g. Qed.
+Print Assumptions C29_all_request.
 
 (* ---- deleting, setting or adding one name never changes the values, or their order, under another name ---- *)
 Theorem C29_other_names_untouched_response : forall nonorm nodefct ops o k', ops_guard rspecials nonorm (ops ++ [o]) ->
